@@ -66,7 +66,7 @@ struct RF : Runner {
 template <unsigned N, typename BT>
 struct RI : Runner {
 	using T = integer<N, BT>;
-	RI(bool sm) { fam = FAM_integer; nbits = N; small = sm; ops1 = {OP_hexfmt, OP_decfmt, OP_binparse};
+	RI(bool sm) { fam = FAM_integer; nbits = N; small = sm; ops1 = {OP_hexfmt, OP_decfmt, OP_streamfmt, OP_binparse};
 		cfg = std::to_string(N) + "," + std::to_string(8 * sizeof(BT)); }
 	std::string run(int op, const std::vector<std::string>& a) override {
 		return guarded([&]() -> std::string {
@@ -77,6 +77,7 @@ struct RI : Runner {
 				T y; if (!parse(s, y)) return "!parse-failed"; return out_bits(y, N); }
 			if (op == OP_binparse) { std::string s = to_string(x); T y; if (!parse(s, y)) return "!parse-failed"; return out_bits(y, N); }   // decimal round trip
 			if (op == OP_decfmt) return bytes_of(to_string(x));
+			if (op == OP_streamfmt) { std::stringstream ss; ss << x; return bytes_of(ss.str()); }   // operator<< (a different code path: convert_to_string)
 			return "?";
 		});
 	}
@@ -106,7 +107,7 @@ int main(int argc, char** argv) {
 	regC<16,5,uint16_t,true,false,false>(false); regC<16,8,uint8_t,true,false,false>(false); regC<24,5,uint8_t,true,true,false>(false); regC<32,8,uint32_t,true,false,false>(false); regC<40,8,uint16_t,false,false,true>(false); regC<64,11,uint32_t,true,false,false>(false);
 	regF<4,2,uint8_t>(true); regF<7,3,uint8_t>(true); regF<8,0,uint8_t>(true); regF<8,4,uint8_t>(true); regF<8,8,uint8_t>(true); regF<10,5,uint8_t>(true); regF<12,4,uint16_t>(true);
 	regF<16,8,uint8_t>(false); regF<24,12,uint16_t>(false); regF<32,16,uint32_t>(false); regF<33,16,uint8_t>(false); regF<48,24,uint16_t>(false); regF<64,32,uint32_t>(false);
-	regI<4,uint8_t>(true); regI<7,uint8_t>(true); regI<8,uint8_t>(true); regI<9,uint8_t>(true); regI<10,uint16_t>(true); regI<12,uint8_t>(true);
-	regI<15,uint8_t>(false); regI<16,uint16_t>(false); regI<17,uint8_t>(false); regI<24,uint8_t>(false); regI<31,uint16_t>(false); regI<32,uint32_t>(false); regI<33,uint8_t>(false); regI<64,uint32_t>(false); regI<65,uint16_t>(false); regI<128,uint32_t>(false);
+	regI<4,uint8_t>(true); regI<5,uint16_t>(true); regI<6,uint8_t>(true); regI<7,uint8_t>(true); regI<11,uint32_t>(true); regI<8,uint8_t>(true); regI<9,uint8_t>(true); regI<10,uint16_t>(true); regI<12,uint8_t>(true);
+	regI<13,uint16_t>(false); regI<15,uint8_t>(false); regI<16,uint16_t>(false); regI<20,uint32_t>(false); regI<29,uint32_t>(false); regI<40,uint64_t>(false); regI<59,uint64_t>(false); regI<17,uint8_t>(false); regI<24,uint8_t>(false); regI<31,uint16_t>(false); regI<32,uint32_t>(false); regI<33,uint8_t>(false); regI<64,uint32_t>(false); regI<65,uint16_t>(false); regI<128,uint32_t>(false);
 	return drv_main(argc, argv);
 }
